@@ -90,6 +90,7 @@ def make_body(name, script, rec):
                         return None
                 elif op == "wait":
                     _, cls, reqs, timeout, wid, wev, on_timeout = a
+                    reqs = {k: (ev.get("i", None) if v == "$i" else v) for k, v in dict(reqs).items()}
                     try:
                         r = await ctx.wait_for_event(cls, waiter_event=(wev(i=next(rec.eid)) if wev else None),
                                                      waiter_id=wid, requirements=dict(reqs), timeout=timeout)
